@@ -8,6 +8,7 @@ import (
 	"path/filepath"
 	"sort"
 	"strings"
+	"sync"
 	"time"
 )
 
@@ -53,7 +54,7 @@ func cmdCheck(args []string) {
 		fmt.Fprintln(os.Stderr, "known findings:", err)
 		os.Exit(2)
 	}
-	v := &Verifier{Prog: p, CS: cs, Prop: *prop, Tier: *tier, Known: known, UsedEnv: map[string]bool{}}
+	v := &Verifier{Prog: p, CS: cs, Prop: *prop, Tier: *tier, Known: known, UsedEnv: map[string]bool{}, UsedSummaries: map[string]bool{}, Verified: map[string]bool{}, AllClauses: map[string]bool{}}
 	var keys []string
 	for k, fc := range cs.Funcs {
 		if *onlyFunc != "" && k != *onlyFunc {
@@ -73,6 +74,33 @@ func cmdCheck(args []string) {
 	for _, k := range keys {
 		v.VerifyFunc(cs.Funcs[k])
 	}
+	// callee contracts that were assumed at call sites are proved against
+	// their bodies in the same run (all of their clauses)
+	for changed := true; changed; {
+		changed = false
+		var ks []string
+		for k := range v.UsedSummaries {
+			if !v.AllClauses[k] {
+				ks = append(ks, k)
+			}
+		}
+		sort.Strings(ks)
+		for _, k := range ks {
+			v.AllClauses[k] = true
+			if v.Verified[k] {
+				// already verified for this property only: redo with all clauses
+				var keep []*Obligation
+				for _, o := range v.Obls {
+					if o.Func != k {
+						keep = append(keep, o)
+					}
+				}
+				v.Obls = keep
+			}
+			v.VerifyFunc(cs.Funcs[k])
+			changed = true
+		}
+	}
 	v.addLemmas(*verifDir)
 	v.addSweeps()
 
@@ -87,7 +115,7 @@ func cmdCheck(args []string) {
 		}
 	}
 	solverMs := decideAll(pending, timeout, 16, *tier == "thorough")
-	decideAll(v.Regions, timeout, 16, false)
+	decideRegions(v.Regions)
 
 	// ---- classify ----------------------------------------------------------
 	type group struct {
@@ -383,4 +411,36 @@ func writeEvidence(path string, v *Verifier, prop, tier string, seed int, nObl, 
 
 func tryReplay(o *Obligation, p *Program, repo string) map[string]interface{} {
 	return nil
+}
+
+// decideRegions re-checks known-finding regions: per finding, paths are tried
+// until one still exhibits the failure (short timeout: a region that cannot
+// be decided quickly on one path is tried on the next).
+func decideRegions(regs []*Obligation) {
+	byName := map[string][]*Obligation{}
+	var names []string
+	for _, r := range regs {
+		if _, ok := byName[r.Name]; !ok {
+			names = append(names, r.Name)
+		}
+		byName[r.Name] = append(byName[r.Name], r)
+	}
+	dir, _ := os.MkdirTemp("", "gvc-reg-")
+	defer os.RemoveAll(dir)
+	var wg sync.WaitGroup
+	for gi, n := range names {
+		wg.Add(1)
+		go func(gi int, group []*Obligation) {
+			defer wg.Done()
+			// smallest queries first
+			sort.SliceStable(group, func(i, j int) bool { return len(group[i].Hyps) < len(group[j].Hyps) })
+			for i, r := range group {
+				decide(r, dir, gi*100000+i, 3, false)
+				if r.Status == "covered" {
+					return
+				}
+			}
+		}(gi, byName[n])
+	}
+	wg.Wait()
 }
